@@ -106,6 +106,18 @@ def _stress_programs() -> dict[str, dict[str, Any]]:
         [jax.ShapeDtypeStruct((3,), jnp.complex64)],
         [((3,), np.complex64)],
     )
+    add(
+        "thirteen_inputs_some_unused",
+        lambda a0, a1, a2, a3, a4, a5, a6, a7, a8, a9, a10, a11, a12: a0 + a3 * a11,
+        [(2,)] * 13,
+        [((2,), f32)] * 13,
+    )
+    add(
+        "twelve_inputs_last_two_unused",
+        lambda *a: a[0] - a[9],
+        [(2,)] * 12,
+        [((2,), f32)] * 12,
+    )
     add("with_param", None, [("B", 4)], [(("B", 4), f32)])
     return P
 
